@@ -107,7 +107,7 @@ func runC05(c *Ctx) {
 
 		for _, b := range f.Blocks {
 			if ifi, ok := b.Instrs[len(b.Instrs)-1].(*ssa.If); ok && strings.HasPrefix(p.Facts(ifi.Cond, true)[0], "lt((phi(") {
-				starts = append(starts, Loc{B: b.Succs[0]})
+				starts = append(starts, Loc{B: b.Succs[0], Pred: b})
 			}
 		}
 
@@ -169,8 +169,8 @@ func runC05(c *Ctx) {
 			mdesc = p.ArgDesc(in.(ssa.CallInstruction), 2)
 		}
 
-		c.MustCut("R05.4", "map parked on `empty` ⊣ {len(m) == 0}", f, sendEmpty, CutSpec{Edges: FactEdge("eq(call:builtin.len(" + mdesc + "),const:0)")}, 1)
-		c.MustCut("R05.4", "map handed to the delivery goroutine ⊣ {len(m) != 0}", f, sendCh, CutSpec{Edges: FactEdge("ne(call:builtin.len(" + mdesc + "),const:0)")}, 1)
+		c.MustCut("R05.4", "map parked on `empty` ⊣ {len(m) == 0}", f, sendEmpty, CutSpec{Edges: FactEdge("eq(call:builtin.len(*),const:0)")}, 1)
+		c.MustCut("R05.4", "map handed to the delivery goroutine ⊣ {len(m) != 0}", f, sendCh, CutSpec{Edges: FactEdge("ne(call:builtin.len(*),const:0)")}, 1)
 		c.NoReach("R05.4", "no use of the map after sending it, before receiving one again", f, After(f, OrInstr(sendEmpty, sendCh)), 2, usesMap(mdesc), CutSpec{Nodes: isSel})
 		c.MustCut("R05.4", "processEvents ⊣ {a map was acquired}", f, p.CallTo(rtT+".processEvents"), CutSpec{Nodes: isSel}, 2)
 	}
